@@ -666,6 +666,7 @@ func (v *Verifier) shift(s *State, op token.Token, a, b *Term, t, bt types.Type,
 		return bvBin("bvlshr", a, cnt)
 	}
 	// int mode: constant counts only
+	b = s.normInt(b)
 	if !b.isInt() {
 		// variable shift: 2^b as uninterpreted pow2 with defining facts for small ranges
 		v.d.declareFun("pow2", []string{SInt}, SInt)
@@ -733,6 +734,15 @@ func (v *Verifier) arith(s *State, op token.Token, a, b *Term, t types.Type, pos
 		}
 		unsupported("bv operator %s", op)
 	}
+	if op == token.MUL || op == token.QUO || op == token.REM || op == token.AND {
+		// operands whose value is fixed on this path (case splits) become literals
+		if na := s.normInt(a); na.isInt() {
+			a = na
+		}
+		if nb := s.normInt(b); nb.isInt() {
+			b = nb
+		}
+	}
 	mathOK := signed && w == 64 // int/int64: mathematical by assumption (recorded)
 	wrap := func(x *Term) *Term {
 		if mathOK {
@@ -753,7 +763,7 @@ func (v *Verifier) arith(s *State, op token.Token, a, b *Term, t types.Type, pos
 		return wrap(Mul(a, b))
 	case token.QUO, token.REM:
 		v.oblige(s, "nopanic", "div", Neq(b, IntLit(0)), pos, "division by zero")
-		if !signed || (b.isInt() && b.Int.Sign() > 0 && v.nonNeg(s, a)) {
+		if !signed || (b.isInt() && b.Int.Sign() > 0 && (v.nonNeg(s, a) || (v.inQuant == 0 && v.entails(s, Ge(a, IntLit(0)))))) {
 			if op == token.QUO {
 				return Div(a, b)
 			}
@@ -1095,7 +1105,7 @@ func (v *Verifier) window(s *State, arr, off, n *Term) *Term {
 		rev := Forall([]*Term{a}, Implies(And(Le(off, a), Lt(a, Add(off, n))), Eq(Select(w, Sub(a, off)), Select(arr, a))), mk("select", es, arr, a))
 		ax = And(ax, rev)
 	}
-	wi := &winInfo{c: w, axiom: ax, kind: "len|" + n.String()}
+	wi := &winInfo{c: w, axiom: ax, kind: "len|" + s.normInt(n).String()}
 	v.windows[key] = wi
 	s.pc = append(s.pc, ax)
 	v.extLemmas(s, wi)
